@@ -118,3 +118,47 @@ exec_local!(x_s_key_count, s_key_count, [in0: (i32, i32)], [out0]);
 exec_local!(x_s_keyed_vec, s_keyed_vec, [in0: (i32, i32)], [out0]);
 exec_local!(x_s_keyed_scan, s_keyed_scan, [in0: (i32, i32)], [out0]);
 exec_local!(x_s_keyed_enum_limit, s_keyed_enum_limit, [in0: (i32, i32)], [out0]);
+exec_local!(x_w_max_top, w_max_top, [in0: i32], [out0]);
+exec_local!(x_w_min_top, w_min_top, [in0: i32], [out0]);
+exec_local!(x_w_max_tick, w_max_tick, [in0: i32], [out0]);
+exec_local!(x_w_min_tick, w_min_tick, [in0: i32], [out0]);
+exec_local!(x_w_first_top, w_first_top, [in0: i32], [out0]);
+exec_local!(x_w_last_top, w_last_top, [in0: i32], [out0]);
+exec_local!(x_w_first_tick, w_first_tick, [in0: i32], [out0]);
+exec_local!(x_w_last_tick, w_last_tick, [in0: i32], [out0]);
+exec_local!(x_w_count_top, w_count_top, [in0: i32], [out0]);
+exec_local!(x_w_count_tick, w_count_tick, [in0: i32], [out0]);
+exec_local!(x_w_is_empty_tick, w_is_empty_tick, [in0: i32], [out0]);
+exec_local!(x_w_weaken_ordering, w_weaken_ordering, [in0: i32], [out0]);
+exec_local!(x_w_make_totally_ordered, w_make_totally_ordered, [in0: i32], [out0]);
+exec_local!(x_w_weaken_retries, w_weaken_retries, [in0: i32], [out0]);
+exec_local!(x_w_make_exactly_once, w_make_exactly_once, [in0: i32], [out0]);
+exec_local!(x_k_weaken_ordering, k_weaken_ordering, [in0: (i32, i32)], [out0]);
+exec_local!(x_k_make_totally_ordered, k_make_totally_ordered, [in0: (i32, i32)], [out0]);
+exec_local!(x_k_weaken_retries, k_weaken_retries, [in0: (i32, i32)], [out0]);
+exec_local!(x_k_make_exactly_once, k_make_exactly_once, [in0: (i32, i32)], [out0]);
+exec_local!(x_k_value_counts_top, k_value_counts_top, [in0: (i32, i32)], [out0]);
+exec_local!(x_k_value_counts_tick, k_value_counts_tick, [in0: (i32, i32)], [out0]);
+exec_local!(x_ks_into_singleton_bv, ks_into_singleton_bv, [in0: (i32, i32)], [out0]);
+exec_local!(x_ks_into_singleton_unb, ks_into_singleton_unb, [in0: (i32, i32)], [out0]);
+exec_local!(x_ks_into_singleton_tick, ks_into_singleton_tick, [in0: (i32, i32)], [out0]);
+exec_local!(x_ks_get_max_key_top, ks_get_max_key_top, [in0: (i32, i32)], [out0]);
+exec_local!(x_ks_get_max_key_tick, ks_get_max_key_tick, [in0: (i32, i32)], [out0]);
+exec_local!(x_w_repeat_with_keys_tick, w_repeat_with_keys_tick, [in0: i32, in1: (i32, i32)], [out0]);
+exec_local!(x_sl_batch_snap_state, sl_batch_snap_state, [in0: i32], [out0]);
+exec_local!(x_sl_keyed, sl_keyed, [in0: (i32, i32)], [out0, out1]);
+exec_local!(x_sl_bounded_value_batch, sl_bounded_value_batch, [in0: (i32, i32)], [out0]);
+exec_local!(x_sl_state_null, sl_state_null, [in0: i32], [out0]);
+exec_local!(x_at_counter, at_counter, [in0: i32, in1: i32], [out0, out1]);
+exec_local!(x_at_keyed_counter, at_keyed_counter, [in0: (i32, i32), in1: (i32, i32)], [out0, out1]);
+exec_local!(x_at_counter_nonatomic, at_counter_nonatomic, [in0: i32, in1: i32], [out0, out1]);
+exec_local!(x_q_join_responses, q_join_responses, [in0: (i32, i32), in1: (i32, i32)], [out0]);
+exec_local!(x_q_collect_11, q_collect_11, [in0: (i32, Result<i32, i32>)], [out0, out1]);
+exec_local!(x_q_collect_22, q_collect_22, [in0: (i32, Result<i32, i32>)], [out0, out1]);
+exec_local!(x_q_collect_23, q_collect_23, [in0: (i32, Result<i32, i32>)], [out0, out1]);
+exec_local!(x_q_collect_33, q_collect_33, [in0: (i32, Result<i32, i32>)], [out0, out1]);
+exec_local!(x_q_collect_13, q_collect_13, [in0: (i32, Result<i32, i32>)], [out0, out1]);
+exec_local!(x_q_resp_22, q_resp_22, [in0: (i32, Result<i32, i32>)], [out0, out1]);
+exec_local!(x_q_resp_23, q_resp_23, [in0: (i32, Result<i32, i32>)], [out0, out1]);
+exec_local!(x_q_resp_13, q_resp_13, [in0: (i32, Result<i32, i32>)], [out0, out1]);
+exec_local!(x_q_unord_23, q_unord_23, [in0: (i32, Result<i32, i32>)], [out0, out1]);
